@@ -23,6 +23,7 @@ use std::task::{Context, Poll, Waker};
 use tower::BoxError;
 
 const PLACEHOLDER: &[u8] = b"{SIG}";
+const NONCE: &[u8] = b"NONCE0000";
 pub const PROVIDER_MSG: &str = "provider says no";
 
 #[derive(Clone)]
@@ -519,6 +520,38 @@ pub fn build(case: &Value, oracle: &mut Oracle) -> Built {
         .map(|a| a.iter().map(|h| (bytes_of(&h[0]), bytes_of(&h[1]))).collect())
         .unwrap_or_default();
     let mut uri = get_bytes(case, "uri");
+    // "nonce": the request carries the token NONCE0000 (nine unreserved characters, so its canonical form is itself);
+    // choose the nine digits that replace it such that the CORRECT signature has the requested shape. The
+    // specification re-reads the request as sent, so an inconsistent substitution could only show as a mismatch.
+    let mut case_owned;
+    let mut case = case;
+    let want = get_str(case, "nonce").to_string();
+    if !want.is_empty() {
+        if let Some(sign) = case.get("sign").filter(|v| v.is_object()) {
+            for k in 0u32..200_000 {
+                let digits = format!("{:09}", k).into_bytes();
+                let mut creq = replace_all(&get_bytes(sign, "creqPre"), NONCE, &digits);
+                creq.extend_from_slice(hex(&sha256(&get_bytes(sign, "payload"))).as_bytes());
+                let mut sts = get_bytes(sign, "stsPre");
+                sts.extend_from_slice(hex(&sha256(&creq)).as_bytes());
+                let key = own_signing_key(&get_bytes(sign, "secret"), &get_bytes(sign, "kdate"), &get_bytes(sign, "region"), &get_bytes(sign, "service"));
+                let sig = hex(&hmac_sha256(&key, &sts)).into_bytes();
+                let ok = match want.as_str() {
+                    "lead0" => sig[0] == b'0' && sig[1] != b'0',
+                    "lead00" => sig.starts_with(b"00"),
+                    "trail0" => sig.ends_with(b"0"),
+                    _ => true,
+                };
+                if ok {
+                    case_owned = case.clone();
+                    uri = replace_all(&uri, NONCE, &digits);
+                    case_owned["sign"]["creqPre"] = jbytes(&replace_all(&get_bytes(sign, "creqPre"), NONCE, &digits));
+                    case = &case_owned;
+                    break;
+                }
+            }
+        }
+    }
     if let Some(sign) = case.get("sign").filter(|v| v.is_object()) {
         // "payloadhex": a signer that takes the payload hash from somewhere else than the body (literal)
         let payload_hex = match sign.get("payloadhex") {
